@@ -3,9 +3,9 @@
 cd /verif
 ids="$@"; [ -z "$ids" ] && ids=$(ls seeded)
 for id in $ids; do
-  prop=$(python3 -c "import json;print(json.load(open('seeded/$id/meta.json'))['breaks_property'])")
+  prop=$(python3 -c "import json;print(json.load(open('seeded/$id/meta.json'))['breaks_property'].split()[0])")
   if [ "$id" = "C13f" ]; then (cd /repo && git checkout -q 07b6150 -- zlink-core/src/idl/parse/mod.rs); fi
-  if ! git -C /repo apply seeded/$id/patch.diff 2>/dev/null; then echo "$id $prop PATCH-DOES-NOT-APPLY"; git -C /repo checkout -q HEAD -- .; continue; fi
+  if ! git -C /repo apply /verif/seeded/$id/patch.diff 2>/dev/null; then echo "$id $prop PATCH-DOES-NOT-APPLY"; git -C /repo checkout -q HEAD -- .; continue; fi
   out=$(python3 check.py $prop 2>&1); rc=$?
   line=$(echo "$out" | grep -E "^VIOLATION|^UNDECIDED|^OK" | head -1 | cut -c1-150)
   ob=$(echo "$out" | grep -E "^failed obligation" | head -1 | sed -E 's/failed obligation ([^ ]+).*/\1/')
